@@ -9,13 +9,24 @@ CHECKS = [
          technique="static: DFA product-automaton language equivalence on constants read from type-checked MIR + "
                    "dominator/who-calls rules"),
 ]
+CHECKS.append(
+    dict(id="C04", level="proof", engine="E1+E2+E3",
+         text="Exhaustive language inclusions (all strings): each numeric/boolean shorthand regex, paired with its "
+              "datatype as read from write_literal's MIR, is included in the Turtle production and in the XSD lexical "
+              "space; the local-name check restricted to IRI text is included in PN_LOCAL-without-escapes; prefixes in "
+              "PN_PREFIX. Structural rules: raw emission of a lexical form only behind those tests, `prefix:local` only "
+              "from the checked lookup, and the lookup returns (prefix, iri[ns.len()..]) of one entry. Decides the "
+              "abbreviation guards, not the isomorphism of the round trip.",
+         note="Trusted: rustc const-eval/MIR, regex-syntax+regex-automata, Turtle/XSD transcriptions, rio_turtle as the "
+              "reader. Not decided: list/inlining/annotation heuristics, rio formatters.",
+         technique="static: DFA language inclusion on regex constants + edge-dominance/def-use rules over MIR"))
 NOT_APPLICABLE = [
     dict(property_id="C17", reason="relativise/resolve inverse is an equation between runtime-computed strings "
          "(byte-offset arithmetic); no structural clause that is a genuine necessary condition without freezing the "
          "code; static analysis in reach cannot decide it"),
 ]
 # properties not yet wired in this commit are listed as not applicable *for now* by gen (see below)
-PENDING = ["C01", "C02", "C03", "C04", "C05", "C06", "C07", "C08", "C10", "C11", "C12", "C13", "C14", "C15",
+PENDING = ["C01", "C02", "C03", "C05", "C06", "C07", "C08", "C10", "C11", "C12", "C13", "C14", "C15",
            "C16", "C18", "C19", "C20"]
 for p in PENDING:
     if p not in [c["id"] for c in CHECKS]:
